@@ -626,8 +626,11 @@ func (p *Parent) superviseWorker(f *Family, k, n int, total int64, famRec *Rec, 
 		}
 		famRec.ViolationCase(f.Name+": "+sig, desc, fmt.Sprintf("worker exit: %v\n%s", err, tail))
 		mu.Unlock()
-		if crashes > 40 || ci < 0 {
-			p.Internal(fmt.Sprintf("family %s worker %d: giving up after %d crashes", f.Name, k, crashes))
+		if crashes > 6 || ci < 0 {
+			// the violation is established; every further hanging/crashing case costs a watchdog period
+			mu.Lock()
+			famRec.Cap(fmt.Sprintf("family %s: a worker stopped after %d crashed/hung cases (each reported); the rest of its share was not run", f.Name, crashes))
+			mu.Unlock()
 			return false
 		}
 		skips = append(skips, strconv.FormatInt(ci, 10))
